@@ -368,7 +368,7 @@ type c08AssocCase struct {
 func c08GenAssocCase(rng *rand.Rand, seed int64, n int) c08AssocCase {
 	c := c08AssocCase{Seed: seed, N: n}
 	c.Rel = c08Rels8[rng.Intn(len(c08Rels8))].Name
-	c.Op = []string{"find", "find-cond", "count", "clear", "clear", "replace-new", "replace-keep", "delete", "delete", "append", "preload", "joins", "innerjoins"}[rng.Intn(13)]
+	c.Op = []string{"find", "find-cond", "count", "clear", "clear", "replace-new", "replace-keep", "delete", "delete", "append", "preload", "joins", "innerjoins", "delete-owner"}[rng.Intn(14)]
 	if c.Op == "joins" || c.Op == "innerjoins" {
 		c.Rel = []string{"Den", "Chip", "Badge", "Home"}[rng.Intn(4)] // association joins: to-one relations
 	}
@@ -377,6 +377,14 @@ func c08GenAssocCase(rng *rand.Rand, seed int64, n int) c08AssocCase {
 	}
 	c.AssocUn = rng.Intn(2) == 0
 	c.Owners = []uint{uint(1 + rng.Intn(3))}
+	if c.Op == "delete-owner" {
+		// db.Select("Rel").Delete(&owner): callbacks/delete.go DeleteBeforeAssociations deletes the related rows (has-one /
+		// has-many / link rows) on a NewDB session and hands Unscoped on by hand
+		c.AssocUn = true
+		for c.Rel == "Home" || (c.Rel == "Teams" && c.DBUn != "" && rng.Intn(4) > 0) { // (Teams + Unscoped: the listed finding F33, visited rarely)
+			c.Rel = c08Rels8[rng.Intn(len(c08Rels8))].Name
+		}
+	}
 	if c.Rel == "Home" && (c.Op == "replace-keep" || c.Op == "append") {
 		c.Op = "clear" // belongs-to: Append is Replace; the key lives in the owner row
 	}
@@ -531,6 +539,10 @@ func c08AssocOne(r *Result, db *gorm.DB, c c08AssocCase, sub int64) {
 					loaded = append(loaded, [2]uint{os[i].ID, uint(f.FieldByName("ID").Uint())})
 				}
 			}
+			return
+		}
+		if c.Op == "delete-owner" {
+			err = h.Select(c.Rel).Delete(model).Error
 			return
 		}
 		a := h.Association(c.Rel)
@@ -785,7 +797,7 @@ func c08AssocOne(r *Result, db *gorm.DB, c c08AssocCase, sub int64) {
 	// which targets does the call have to delete / detach?
 	doomed := func(t tgt) bool {
 		switch c.Op {
-		case "clear", "replace-new":
+		case "clear", "replace-new", "delete-owner":
 			return true
 		case "replace-keep":
 			return arg == "" || fmt.Sprint(t.row.ID) != arg
@@ -800,6 +812,19 @@ func c08AssocOne(r *Result, db *gorm.DB, c c08AssocCase, sub int64) {
 	}
 	if c.Op == "append" {
 		return
+	}
+	if c.Op == "delete-owner" {
+		// the owner itself: marked without Unscoped, gone with it
+		for _, o := range c.Owners {
+			var present, live int64
+			tx.Session(&gorm.Session{NewDB: true}).Raw("SELECT count(*) FROM a8_owners WHERE id = ?", o).Scan(&present)
+			tx.Session(&gorm.Session{NewDB: true}).Raw("SELECT count(*) FROM a8_owners WHERE id = ? AND deleted_at IS NULL", o).Scan(&live)
+			if !un && (present != 1 || live != 0) || un && present != 0 {
+				bad(map[bool]string{false: "I3", true: "I4"}[un], fmt.Sprintf("owner %d: present=%d live=%d", o, present, live),
+					map[bool]string{false: "present and marked", true: "removed physically"}[un], "Select(relation).Delete(&owner)")
+				return
+			}
+		}
 	}
 	if rel.Kind != "m2m" {
 		for _, t := range targets {
@@ -849,6 +874,12 @@ func c08AssocOne(r *Result, db *gorm.DB, c c08AssocCase, sub int64) {
 				return
 			}
 			if un && present {
+				if c.Op == "delete-owner" && c.Ctx != "propagate" && listed(c08F33) {
+					// FINDING F33: the many2many arm of DeleteBeforeAssociations works on a NewDB session and does not hand
+					// Unscoped on (the has-one/has-many arm does): the link rows of a soft-deletable join model are marked
+					r.KnownFinding(c08F33, fmt.Sprintf("db.Unscoped().Select(%q).Delete(&owner): link (%d,%d) of the soft-deletable join model is still in %s", c.Rel, l.Owner, l.Rel, rel.Join))
+					return
+				}
 				bad("I4", fmt.Sprintf("link (%d,%d) is still in %s (live=%v)", l.Owner, l.Rel, rel.Join, a.Live), "removed physically", "with db.Unscoped() Delete removes rows physically")
 				return
 			}
@@ -856,9 +887,20 @@ func c08AssocOne(r *Result, db *gorm.DB, c c08AssocCase, sub int64) {
 	}
 }
 
+const c08F33 = "F33-C08-select-delete-m2m-links-scoped"
+
+// c08ProbeF33 re-confirms the listed finding on the real code, literally
+func c08ProbeF33(r *Result) {
+	db, _, sqlDB := OpenRec(&gorm.Config{NowFunc: fixedNowFunc})
+	defer sqlDB.Close()
+	c08AssocSeed(db, rand.New(rand.NewSource(1)))
+	c08AssocOne(r, db, c08AssocCase{Seed: 1, N: -1, Rel: "Teams", Op: "delete-owner", DBUn: "before-model", AssocUn: true, Owners: []uint{1}, Ctx: "tx"}, 1)
+}
+
 func init() {
 	register("C08", func(r *Result, rng *rand.Rand, tier string) {
-		n := map[string]int{"quick": 60, "thorough": 1500, "search": 500}[tier]
+		c08ProbeF33(r)
+		n := map[string]int{"quick": 110, "thorough": 1500, "search": 500}[tier]
 		for i := 0; i < n && !expired(); i++ {
 			c08AssocWorld(r, rng.Int63())
 		}
